@@ -68,3 +68,12 @@ Definition judge_expand (x : case * option (list value) * outcome str * outcome 
                                    | Some (XS l) | Some (XR l) => match ph_of l with [] => false | _ => true end
                                    | _ => false end) (c_values c) in
   bits agree spec dom nontriv.
+
+(* suite history: one pipeline object / one backend used for several conversions, the variable table
+   changed in between. Every step is judged by the unchanged single-conversion judge against the table
+   current at that step: conversion has no memory. Bits are combined: all steps agree / all accepted /
+   all in the domain / some step non-trivial. *)
+Definition judge_history (l : list (case * option (list value) * outcome str * outcome str)) : N :=
+  let bs := map judge_expand l in
+  bits (forallb (fun b => N.testbit b 0) bs) (forallb (fun b => N.testbit b 1) bs)
+       (forallb (fun b => N.testbit b 2) bs) (existsb (fun b => N.testbit b 3) bs).
